@@ -12,6 +12,7 @@ func init() { families = append(families, factsIndex) }
 
 func factsIndex() {
 	factsC13()
+	factsC12()
 }
 
 // writeArgs lists, in source order, the first argument of every call of the form
@@ -62,4 +63,16 @@ func factsC13() {
 	g := parse("pkg/store/cache/matchers_cache.go")
 	emitList("matcherKeyWrites", "pkg/store/cache/matchers_cache.go cacheKey: what is written to the key, in order",
 		writeArgs(body(fn(g, "", "cacheKey")), "sb"))
+}
+
+func factsC12() {
+	f := parse("pkg/store/postings_codec.go")
+	emitStr("postingsEncodeOrderTest", "pkg/store/postings_codec.go diffVarintEncodeNoHeader: the order test",
+		firstIfCond(body(fn(f, "", "diffVarintEncodeNoHeader")), "prev"))
+	emitStr("postingsStreamedEncodeOrderTest", "pkg/store/postings_codec.go diffVarintSnappyStreamedEncode: the order test",
+		firstIfCond(body(fn(f, "", "diffVarintSnappyStreamedEncode")), "prev"))
+	emitStr("postingsSeekGuard", "pkg/store/postings_codec.go diffVarintPostings.Seek: the guard before scanning",
+		firstIfCond(body(fn(f, "diffVarintPostings", "Seek")), ">="))
+	emitStr("postingsStreamedSeekGuard", "pkg/store/postings_codec.go streamedDiffVarintPostings.Seek: the guard before scanning",
+		firstIfCond(body(fn(f, "streamedDiffVarintPostings", "Seek")), ">="))
 }
